@@ -65,31 +65,37 @@ def _ufs():
 
 
 def snapshot():
+    """State of every union-find of the module.  Object identity is part of the state: two keys (or two of the module's
+    tables) that are the SAME object must still be the same object after restore(), otherwise taking a snapshot around
+    every sweep would silently repair a sharing defect in the implementation."""
     snap = {}
     for name, v in _ufs().items():
         if isinstance(v, dict):
-            snap[name] = ("dict", [(k, list(u.lookup.items())) for k, u in v.items()])
+            snap[name] = ("dict", [(k, id(u), list(u.lookup.items())) for k, u in v.items()])
         else:
-            snap[name] = ("uf", list(v.lookup.items()))
+            snap[name] = ("uf", id(v), list(v.lookup.items()))
     return snap
 
 
-def _mk(items):
-    u = pe._UnionFind()
+def _mk(items, ident, made):
+    if ident in made:
+        return made[ident]
+    u = made[ident] = pe._UnionFind()
     for k, v in items:
         u.lookup[k] = v
     return u
 
 
 def restore(snap):
-    for name, (kind, v) in snap.items():
-        if kind == "uf":
-            setattr(pe, name, _mk(v))
+    made = {}
+    for name, ent in snap.items():
+        if ent[0] == "uf":
+            setattr(pe, name, _mk(ent[2], ent[1], made))
         else:
             d = getattr(pe, name)
             d.clear()
-            for k, items in v:
-                d[k] = _mk(items)
+            for k, ident, items in ent[1]:
+                d[k] = _mk(items, ident, made)
 
 
 # ---------------------------------------------------------------- one job
